@@ -299,6 +299,9 @@ class ProjectConfig:
             except UnicodeDecodeError as err:
                 error_line = path.read_bytes()[: err.start].count(b"\n")
                 return ("", [CannotOpenFile(None, str(err), error_line)])
+            except OSError as err:
+                # e.g. a dangling symlink, or a file we are not allowed to read
+                return ("", [CannotOpenFile(path, err.strerror, 0)])
 
         text, diagnostics = self.substitute(text)
         match_found = PAT_GIT_MARKER.finditer(text)
